@@ -919,7 +919,7 @@ func main() {
 	evPieces := []string{"data: 1\n\n", "data: 2\r\n\r\n", "data: 3\r\r", "id: 7\ndata: x\n", "\n", "\r", "\r\n", ": keep-alive", "d", "event: e\r\ndata: y\r\n\r", "\ndata: tail", "retry: 10\n\r\n", strings.Repeat("z", 40)}
 	nD := 250
 	if thorough {
-		nD = 6000
+		nD = 3000
 	}
 	dkinds := map[string]int{}
 	for k := 0; k < nD; k++ {
